@@ -17,12 +17,14 @@
 (*         f64-accumulated one (every addition correctly rounded), frames  *)
 (*         are Dyadic values, the linear blend is accepted exactly on the  *)
 (*         exact domain and with a derived tolerance elsewhere.            *)
-(*         MC_Converter also checks C against A on the exact domain.       *)
+(*         MC_Converter checks C against A on the exact domain;            *)
+(*         MC_ConverterFix checks its fast arithmetic against Dyadic.tla.  *)
 (*                                                                         *)
 (* Constant-free; sources are 1-based sequences, source frame i (0-based)  *)
 (* is src[i+1], and equilibrium beyond the end.                            *)
 (***************************************************************************)
-EXTENDS Dyadic          \* brings Big, Naturals, Integers, Sequences
+EXTENDS Dyadic,         \* brings Big, Naturals, Integers, Sequences
+        SequencesExt    \* FoldLeft (evaluated iteratively by TLC's Java override)
 
 CvSome(v) == [k |-> "some", v |-> v]
 CvNone    == [k |-> "none"]
@@ -137,11 +139,13 @@ CCollect(c, eq, U, cap) ==
 (*                                                                         *)
 (* State of one converter as the property sees it:                         *)
 (*   adv    whole source frames advanced so far  (= floor of the position) *)
-(*   acc    the rest of the position of the NEXT output (a Dyadic that is  *)
-(*          an f64 value; >= 1 means frames still to pull)                 *)
-(*   ratio  Dyadic, the ratio in effect                                    *)
+(*   acc    the rest of the position of the NEXT output: always an f64     *)
+(*          value; >= 1 means frames still to pull                         *)
+(*   ratio  the ratio in effect (an f64 value)                             *)
 (*   exact  no addition has rounded so far: adv + acc is the real P_n      *)
-(*   psum   the real-number sum of the ratios (kept exactly)               *)
+(*   psum   the real-number sum of the ratios (kept while exact)           *)
+(* acc, ratio, psum are held as fixed-point images ("fix", below) of the   *)
+(* Dyadic values; RefStep is the same step on Dyadic values directly.      *)
 (* The source is pattern `pat` repeated up to `len` frames.                *)
 
 DOne == DFromInt(1)
@@ -232,14 +236,14 @@ FStep(st) ==
       st |-> [adv |-> st.adv + k, acc |-> r.v, ratio |-> st.ratio, exact |-> ex,
               psum |-> IF ex THEN FixAdd(st.psum, st.ratio) ELSE st.psum]]
 \* n >= 1 consecutive outputs at a constant ratio: the last step, and how many of the n outputs found the
-\* converter exhausted beforehand (need = source frames beyond priming, i.e. exhausted source <=> adv >= need)
-RECURSIVE FRun(_, _, _, _)
+\* converter exhausted beforehand (need = source frames beyond priming, i.e. exhausted source <=> adv >= need).
+\* A fold, not a RECURSIVE operator: TLC does not cache LET / parameter values inside recursive operators,
+\* which makes a recursive loop over a lazily chained state quadratic; FoldLeft iterates over values.
+FRunOne(a, need) ==
+  LET t == FStep(a.t.st)
+  IN [t |-> t, cnt |-> IF a.t.st.adv >= need /\ a.t.st.acc[4] >= 1 THEN a.cnt + 1 ELSE a.cnt]
 FRun(st, n, need, cnt) ==
-  LET t  == FStep(st)
-      c2 == IF st.adv >= need /\ st.acc[4] >= 1 THEN cnt + 1 ELSE cnt
-  IN IF n = 1 \/ t.st.adv + c2 < 0        \* (second disjunct never true: forces evaluation step by step)
-       THEN [t |-> t, cnt |-> c2]
-       ELSE FRun(t.st, n - 1, need, c2)
+  FoldLeft(LAMBDA a, j : FRunOne(a, need), [t |-> [x |-> FixZero, i |-> 0, st |-> st], cnt |-> cnt], [j \in 1..n |-> j])
 FPulled(kind, st) == Prime(kind) + st.adv
 \* exhausted before the next output: source empty and the output needs a further frame
 FExh(kind, len, st) == FPulled(kind, st) >= len /\ st.acc[4] >= 1
